@@ -53,7 +53,9 @@ def strategy(tier):
     unmatched = st.lists(st.tuples(st.sampled_from(['A', 'D', 'H', 'S', 'C', 'V']), st.booleans(), st.integers(0, 6)), max_size=2,
                          unique_by=lambda t: t[0])
     return st.fixed_dictionaries({'items': items(3), 'unmatched': st.one_of(st.just([]), unmatched),
-                                  'range': st.tuples(st.integers(0, 5), st.integers(0, 5)), 'cli': st.integers(0, 19), 'lib': st.integers(0, 5), 'plain': st.sampled_from([False, False, True]),
+                                  'range': st.tuples(st.integers(0, 5), st.integers(0, 5)),
+                                  # a long run of unmatched openers in front (token_pairs.c changes its search once more than 1000 openers are pending)
+                                  'flood': st.one_of(st.just(None), st.just(None), st.just(None), st.tuples(st.sampled_from(['A', 'D', 'H', 'S', 'C']), st.sampled_from([990, 1000, 1001, 1002, 1010, 1100, 1500]))), 'cli': st.integers(0, 19), 'lib': st.integers(0, 5), 'plain': st.sampled_from([False, False, True]),
                                   'fmt': st.sampled_from(['html', 'latex', 'fodt', 'opml', 'beamer'])})
 
 
@@ -149,6 +151,8 @@ def build(case):
         pos = min(pos, len(its))
         # a stray marker directly after text ending in '~' could read as '~>' + ... : keep a blank before it
         its = its[:pos] + [['T', [' ']], ['U', m], ['T', [' ']]] + its[pos:]
+    if case.get('flood') and not case.get('unmatched'):
+        its = [['U', OPEN[case['flood'][0]] * case['flood'][1]], ['T', [' ']]] + its
     return its
 
 
@@ -166,7 +170,9 @@ def check(case, ctx):
     if '\x00' in src:
         return
     n_marks, n_nested = count_marks(its)
-    unmatched = bool(case.get('unmatched'))
+    unmatched = bool(case.get('unmatched')) or bool(case.get('flood'))
+    if case.get('flood') and not case.get('unmatched'):
+        ctx.cls('flood_of_unmatched_openers')
     ctx.cls('with_unmatched_marker' if unmatched else 'well_formed_only')
     ctx.cls('marks_%s' % (n_marks if n_marks < 6 else '6+'))
     for acc, op in ((True, 'accept'), (False, 'reject')):
